@@ -502,4 +502,192 @@ theorem c20_dcMulSmall_spec [CommRing S] (h : BoltCc) {half g : Nat} (ok : c20_C
       rw [e, Nat.add_mod_right, Nat.mod_eq_of_lt (by omega)]
     rw [hH, ok.hN2, c20_rotRows_get 0 _ _ _ hp2, e1, e2, c20_rho_incol_sub hh hkg hhi, e3]
 
+/-! ### accumulation of the block products, end to end -/
+
+/-- `Cipher1d::add_inplace` folded over the block products: polynomial `o` of the result is the slot-wise sum -/
+theorem c20_zipFold_get [AddCommMonoid S] (N L : Nat) :
+    ∀ (rest : List (List (Array S))) (acc : List (Array S)), acc.length = L → (∀ p ∈ rest, p.length = L) → ∀ o, o < L →
+      ∃ v, (rest.foldl (fun acc p => (acc.zip p).map fun ap => slotZip (· + ·) 0 N ap.1 ap.2) acc)[o]? = some v ∧
+        ((acc.getD o #[]).size = N → v.size = N) ∧
+        (∀ q, q < N → v.getD q 0 = (acc.getD o #[]).getD q 0 + (rest.map fun p => (p.getD o #[]).getD q 0).sum) ∧
+        (rest.foldl (fun acc p => (acc.zip p).map fun ap => slotZip (· + ·) 0 N ap.1 ap.2) acc).length = L
+  | [], acc, hacc, _, o, ho => by
+    refine ⟨acc[o]'(by omega), by simp, ?_, ?_, hacc⟩
+    · intro hs; simpa [List.getD, List.getElem?_eq_getElem (by omega : o < acc.length)] using hs
+    · intro q _; simp [List.getD, List.getElem?_eq_getElem (by omega : o < acc.length)]
+  | p :: rest, acc, hacc, hrest, o, ho => by
+    have hp : p.length = L := hrest p (by simp)
+    have hlen : ((acc.zip p).map fun ap => slotZip (· + ·) 0 N ap.1 ap.2).length = L := by simp [hacc, hp]
+    obtain ⟨v, hv, hsz, hval, hl⟩ := c20_zipFold_get N L rest _ hlen (fun p' hp' => hrest p' (by simp [hp'])) o ho
+    have hget : (((acc.zip p).map fun ap => slotZip (· + ·) 0 N ap.1 ap.2).getD o #[])
+        = slotZip (· + ·) 0 N (acc.getD o #[]) (p.getD o #[]) := by
+      simp [List.getD, List.getElem?_map, List.getElem?_eq_getElem (by omega : o < acc.length),
+        List.getElem?_eq_getElem (by omega : o < p.length), List.getElem?_eq_getElem (by simp [hacc, hp]; omega : o < (acc.zip p).length)]
+    refine ⟨v, by rw [List.foldl_cons]; exact hv, fun _ => hsz (by rw [hget]; exact c20_slotZip_size _ _ _ _ _), ?_,
+      by rw [List.foldl_cons]; exact hl⟩
+    intro q hq
+    rw [hval q hq, hget, c20_slotZip_get _ _ _ _ _ hq, List.map_cons, List.sum_cons, add_assoc]
+
+theorem c20_zipFold_length (N L : Nat) (f : Array S → Array S → Array S) :
+    ∀ (rest : List (List (Array S))) (acc : List (Array S)), acc.length = L → (∀ p ∈ rest, p.length = L) →
+      (rest.foldl (fun acc p => (acc.zip p).map fun (ap : Array S × Array S) => f ap.1 ap.2) acc).length = L
+  | [], _, hacc, _ => hacc
+  | p :: rest, acc, hacc, hrest => by
+    rw [List.foldl_cons]
+    exact c20_zipFold_length N L f rest _ (by simp [hacc, hrest p (by simp)]) (fun p' hp' => hrest p' (by simp [hp']))
+
+/-- **`MatmulBoltCcDc`, whole pipeline** (any commutative ring, every helper satisfying `c20_CcOK`, `r > 0`): encode the LHS blocks by
+    diagonals and the RHS row parts column-major, run `multiply` of the small helper for every block pair (rotate the RHS by the shift,
+    `spread_inputs` of the masked diagonal segment, multiply, accumulate; then the right shifts), add the block products, decode
+    column-major: the result is `x · w`, row major `m × n` -/
+theorem c20_boltDc_whole [CommRing S] (h : BoltCc) {half g : Nat} (ok : c20_CcOK h half g) (hr : 0 < h.r) (x w : Nat → S) :
+    ∃ X W Y out, boltDcEncodeInputs h 0 x (h.mAll * h.r) = .ok X ∧ boltDcEncodeWeights h 0 w (h.r * h.nAll) = .ok W ∧
+      boltDcMultiply h (· + ·) (· * ·) 0 X W = .ok Y ∧ boltDcDecodeOutputs h 0 Y = .ok out ∧ out.size = h.mAll * h.nAll ∧
+      ∀ i j, i < h.mAll → j < h.nAll → out.getD (i * h.nAll + j) 0 = ∑ k ∈ range h.r, x (i * h.r + k) * w (k * h.nAll + j) := by
+  have hgs := ok.gsc_pos
+  have hm0 := ok.hm0
+  have hmg := ok.hmg
+  have hR : 0 < ceilDiv h.r h.m := c20_ceilDiv_pos hr hm0
+  have hbind : ∀ {α β : Type} (a : α) (f : α → R β), (Except.ok a >>= f) = f a := fun _ _ => rfl
+  let Xr : Nat × Nat → List (Array S) := fun ij => (List.range (ceilDiv h.m h.gsc)).map fun ii => c20_dcIn 0 h x ij.1 ij.2 ii
+  let Wr : Nat → List (Array S) := fun p => (List.range (ceilDiv h.nAll h.gsc)).map fun i => c20_dcW 0 h w p i
+  -- the block products
+  let YQ : Nat → Nat → List (Array S) := fun i j => c20_val [] (boltDcMulSmall h (· + ·) (· * ·) 0 (Xr (i, j)) (Wr j))
+  have hYQ : ∀ i j, boltDcMulSmall h (· + ·) (· * ·) 0 (Xr (i, j)) (Wr j) = .ok (YQ i j) ∧ (YQ i j).length = ceilDiv h.nAll h.gsc ∧
+      ∀ o, o < ceilDiv h.nAll h.gsc → ∃ v, (YQ i j)[o]? = some v ∧ v.size = h.N ∧ ∀ c k, c < h.gsc → k < h.m →
+        v.getD (c * h.gap + k) 0 = ∑ sh ∈ range h.m, (c20_dcW 0 h w j o).getD (c * h.gap + (k + sh) % h.m) 0
+          * (c20_dcIn 0 h x i j (sh / h.gsc)).getD (sh % h.gsc * h.gap + k) 0 := by
+    intro i j
+    obtain ⟨Yq, hYq, hl, hv⟩ := c20_dcMulSmall_spec h ok (fun ii => c20_dcIn 0 h x i j ii) (fun o => c20_dcW 0 h w j o)
+    have e : YQ i j = Yq := by
+      show c20_val [] (boltDcMulSmall h (· + ·) (· * ·) 0 ((List.range _).map _) ((List.range _).map _)) = Yq
+      rw [hYq]; rfl
+    rw [e]
+    exact ⟨hYq, hl, hv⟩
+  -- the multiplication: every output part is the sum of the block products
+  have hmulE : ∃ Y, boltDcMultiply h (· + ·) (· * ·) 0 ((pairs (ceilDiv h.mAll h.m) (ceilDiv h.r h.m)).map Xr)
+        ((List.range (ceilDiv h.r h.m)).map Wr) = .ok Y ∧ Y.length = ceilDiv h.mAll h.m ∧
+      ∀ i, i < ceilDiv h.mAll h.m → ∃ part, Y[i]? = some part ∧ part.length = ceilDiv h.nAll h.gsc ∧
+        ∀ o, o < ceilDiv h.nAll h.gsc → ∃ v, part[o]? = some v ∧ v.size = h.N ∧ ∀ q, q < h.N →
+          v.getD q 0 = ∑ j ∈ range (ceilDiv h.r h.m), ((YQ i j).getD o #[]).getD q 0 := by
+    unfold boltDcMultiply
+    have hlenA : ((pairs (ceilDiv h.mAll h.m) (ceilDiv h.r h.m)).map Xr).length = ceilDiv h.mAll h.m * ceilDiv h.r h.m := by
+      rw [List.length_map, c20_pairs_eq, List.length_map, List.length_range]
+    simp only [hlenA, List.length_map, List.length_range, ne_eq, not_true_eq_false, or_self, if_false]
+    refine c20_mapM_spec' _ (fun (i : Nat) (part : List (Array S)) => part.length = ceilDiv h.nAll h.gsc ∧
+        ∀ o, o < ceilDiv h.nAll h.gsc → ∃ v, part[o]? = some v ∧ v.size = h.N ∧ ∀ q, q < h.N →
+          v.getD q 0 = ∑ j ∈ range (ceilDiv h.r h.m), ((YQ i j).getD o #[]).getD q 0) _ _ ?_ ?_
+    swap
+    · intro Y hlen hall
+      refine ⟨by simpa using hlen, ?_⟩
+      intro i hi
+      obtain ⟨part, hp, hP⟩ := hall i (by simpa using hi)
+      rw [List.getElem_range] at hP
+      exact ⟨part, hp, hP⟩
+    intro i hi
+    have hi' := List.mem_range.mp hi
+    have hparts : (List.range (ceilDiv h.r h.m)).mapM (fun j => do
+          let a ← getRow ((pairs (ceilDiv h.mAll h.m) (ceilDiv h.r h.m)).map Xr) (i * ceilDiv h.r h.m + j)
+          let b ← getRow ((List.range (ceilDiv h.r h.m)).map Wr) j
+          boltDcMulSmall h (· + ·) (· * ·) 0 a b) = .ok ((List.range (ceilDiv h.r h.m)).map fun j => YQ i j) := by
+      apply c20_mapM_eq
+      intro j hj
+      have hj' := List.mem_range.mp hj
+      have h1 : getRow ((pairs (ceilDiv h.mAll h.m) (ceilDiv h.r h.m)).map Xr) (i * ceilDiv h.r h.m + j) = .ok (Xr (i, j)) := by
+        unfold getRow; rw [c20_pairs_map_getElem? _ _ _ _ _ hi' hj']
+      rw [h1, c20_getRow_map _ _ _ hj']
+      simp only [hbind]
+      exact (hYQ i j).1
+    rw [hparts]
+    simp only [hbind]
+    obtain ⟨R', hR'⟩ : ∃ R', ceilDiv h.r h.m = R' + 1 := ⟨ceilDiv h.r h.m - 1, by omega⟩
+    rw [hR', List.range_succ_eq_map, List.map_cons, List.map_map]
+    have hrestlen : ∀ p ∈ (List.range R').map ((fun j => YQ i j) ∘ Nat.succ), p.length = ceilDiv h.nAll h.gsc := by
+      intro p hp
+      obtain ⟨j, _, rfl⟩ := List.mem_map.mp hp
+      exact (hYQ i _).2.1
+    refine ⟨_, rfl, c20_zipFold_length h.N _ _ _ _ (hYQ i 0).2.1 hrestlen, ?_⟩
+    intro o ho
+    obtain ⟨v, hv, hsz, hval, _⟩ := c20_zipFold_get h.N (ceilDiv h.nAll h.gsc) _ (YQ i 0) (hYQ i 0).2.1 hrestlen o ho
+    obtain ⟨v0, hv0, hv0s, _⟩ := (hYQ i 0).2.2 o ho
+    have hg0 : (YQ i 0).getD o #[] = v0 := by simp [List.getD, hv0]
+    refine ⟨v, hv, hsz (by rw [hg0]; exact hv0s), ?_⟩
+    intro q hq
+    rw [hval q hq, List.map_map, c20_list_sum_range, Finset.sum_range_succ', add_comm]
+    rfl
+  obtain ⟨Y, hmul, hYlen, hYall⟩ := hmulE
+  -- decoding
+  have hany : (Y.any fun p => p.length ≠ ceilDiv h.nAll h.gsc) = false := by
+    rw [List.any_eq_false]
+    intro part hpart
+    obtain ⟨p, hp, hget⟩ := List.getElem_of_mem hpart
+    obtain ⟨b, hb, hbl, _⟩ := hYall p (by omega)
+    rw [List.getElem?_eq_getElem hp, hget] at hb
+    cases hb
+    simp [hbl]
+  obtain ⟨out, hout, hosz, hoval⟩ := c20_boltColMajorDecode_spec (0 : S) h.gap h.gsc h.m h.mAll h.nAll Y
+    (fun row col => ∑ k ∈ range h.r, x (row * h.r + k) * w (k * h.nAll + col)) hm0 hYlen
+    (by
+      intro p hp
+      obtain ⟨part, hpart, _, hpv⟩ := hYall p hp
+      refine ⟨part, by unfold getRow; rw [hpart], ?_⟩
+      intro k col hk hcol
+      have hco : col / h.gsc < ceilDiv h.nAll h.gsc := c20_div_lt_ceilDiv hgs hcol
+      have hcc : col % h.gsc < h.gsc := Nat.mod_lt _ hgs
+      have hkm : k < h.m := by omega
+      have hkg : k < h.gap := by omega
+      obtain ⟨v, hv, hvs, hvv⟩ := hpv (col / h.gsc) hco
+      refine ⟨v, by unfold getSlots; rw [hv], ?_⟩
+      have hlt : col % h.gsc * h.gap + k < h.N := by
+        rw [ok.hN]; have := c20_succ_mul_le (ib := h.gap) hcc; omega
+      rw [c20_readAt_getD 0 v (by rw [hvs]; exact hlt), hvv _ hlt]
+      congr 1
+      have ecol : col / h.gsc * h.gsc + col % h.gsc = col := Nat.div_add_mod' col h.gsc
+      let G : Nat → S := fun q => if q < h.r then w (q * h.nAll + col) * x ((p * h.m + k) * h.r + q) else 0
+      have hblock : ∀ j, ((YQ p j).getD (col / h.gsc) #[]).getD (col % h.gsc * h.gap + k) 0 = ∑ t ∈ range h.m, G (j * h.m + t) := by
+        intro j
+        obtain ⟨vj, hvj, _, hvjv⟩ := (hYQ p j).2.2 (col / h.gsc) hco
+        have hgj : (YQ p j).getD (col / h.gsc) #[] = vj := by simp [List.getD, hvj]
+        rw [hgj, hvjv _ _ hcc hkm, ← c20_sum_rot (fun t => G (j * h.m + t)) h.m k]
+        apply Finset.sum_congr rfl
+        intro sh hsh
+        have hsh' := Finset.mem_range.mp hsh
+        have htm : (k + sh) % h.m < h.m := Nat.mod_lt _ hm0
+        have esh : sh / h.gsc * h.gsc + k + sh % h.gsc = k + sh := by have := Nat.div_add_mod' sh h.gsc; omega
+        rw [c20_dcW_get 0 h ok w j (col / h.gsc) hcc (by omega : (k + sh) % h.m < h.gap),
+          c20_dcIn_get 0 h ok x p j (sh / h.gsc) (Nat.mod_lt _ hgs) hkg, esh, ecol, Nat.add_comm sh k]
+        show _ = if _ < h.r then _ else 0
+        by_cases hq : j * h.m + (k + sh) % h.m < h.r
+        · rw [if_pos ⟨htm, hq, hcol⟩, if_pos ⟨by omega, hq⟩, if_pos hq]
+        · rw [if_neg (fun hc' => hq hc'.2.1), if_neg hq, zero_mul]
+      rw [Finset.sum_congr rfl (fun j _ => hblock j), c20_sum_range_mul G]
+      have hsub : range h.r ⊆ range (ceilDiv h.r h.m * h.m) := by
+        intro q hq
+        have := c20_le_ceilDiv_mul h.r h.m hm0
+        exact Finset.mem_range.mpr (lt_of_lt_of_le (Finset.mem_range.mp hq) this)
+      rw [← Finset.sum_subset hsub (fun q _ hq => by
+        show (if q < h.r then _ else 0) = 0
+        rw [if_neg (fun hlt => hq (Finset.mem_range.mpr hlt))])]
+      apply Finset.sum_congr rfl
+      intro q hq
+      show (if q < h.r then _ else 0) = _
+      rw [if_pos (Finset.mem_range.mp hq), mul_comm])
+  refine ⟨_, _, Y, out, c20_boltDcEncodeInputs_ok 0 h ok x, c20_boltDcEncodeWeights_ok 0 h ok w, hmul, ?_, hosz, hoval⟩
+  unfold boltDcDecodeOutputs
+  rw [if_neg (by rw [hany]; simp [hYlen])]
+  exact hout
+
+/-- **... for every helper `MatmulBoltCcDc::new` accepts, with `r > 0`** (`N` a power of two in the `usize` range).  For `r = 0` the
+    constructor still accepts (`BoltCc.newDc 1 0 1 2` is `ok`), but `multiply` fails on the empty list of block products
+    (`item.unwrap()` on `None` in the code): the hypothesis `0 < r` cannot be dropped -/
+theorem c20_boltDc_new [CommRing S] {m r n N : Nat} {h : BoltCc} (hnew : BoltCc.newDc m r n N = .ok h) (hpow : ∃ e, N = 2^e)
+    (hN64 : N < 2^64) (hr0 : 0 < r) (x w : Nat → S) :
+    ∃ X W Y out, boltDcEncodeInputs h 0 x (m * r) = .ok X ∧ boltDcEncodeWeights h 0 w (r * n) = .ok W ∧
+      boltDcMultiply h (· + ·) (· * ·) 0 X W = .ok Y ∧ boltDcDecodeOutputs h 0 Y = .ok out ∧ out.size = m * n ∧
+      ∀ i j, i < m → j < n → out.getD (i * n + j) 0 = ∑ k ∈ range r, x (i * r + k) * w (k * n + j) := by
+  obtain ⟨_, hm, hr, hn, _, half, g, ok⟩ := c20_boltDcNew_ok hnew hpow hN64
+  have := c20_boltDc_whole h ok (by rw [hr]; exact hr0) x w
+  rw [hm, hr, hn] at this
+  exact this
+
 end HC
